@@ -281,41 +281,46 @@ func c14NonDyadicCopyShards(tier string) []mc.Shard {
 }
 
 // countLastBitsOnly is the history predicate of the known finding of C14: the two
-// observations quoted in the violation show the same bins, zero weight, extremes,
-// emptiness and sum, and differ in the last bits of count= (at most 4 ulps) and
-// possibly in quantile answers, which are computed from that count (a rank that
-// sits exactly on a cumulative boundary moves to the neighbouring bin). It names
-// exactly this failure: the buffered paginated store computes its total as
-// len(buffer) + sum(pages) on every call, so when a read compacts the buffer the
-// same bins are summed in another order.
-var (
-	obsCount = regexp.MustCompile(`count=(\S+)`)
-	obsQuant = regexp.MustCompile(`(q|batch)=\[[^\]]*\]`)
-)
+// observations quoted in the violation have the same shape (same bins, same
+// extremes, same emptiness) and every number in them agrees to within 4 ulps,
+// at least one differing in its last bits; quantile answers are left out, being
+// computed from the total (a rank that sits exactly on a cumulative boundary moves
+// to the neighbouring bin). It names exactly this failure: the buffered paginated
+// store keeps unit entries aside and adds them to their page when it compacts, and
+// computes its total as len(buffer) + sum(pages) on every call; when a read
+// compacts the buffer, the same additions happen in another order.
+var obsQuant = regexp.MustCompile(`(q|batch)=\[[^\]]*\]`)
 
 func countLastBitsOnly(v mc.Violation) bool {
-	var rest []string
-	var counts []float64
+	var obs [][]string
 	for _, line := range strings.Split(v.Detail, "\n") {
-		m := obsCount.FindStringSubmatch(line)
-		if m == nil {
+		i := strings.Index(line, "count=")
+		if i < 0 {
 			continue
 		}
-		c, err := strconv.ParseFloat(m[1], 64)
-		if err != nil {
-			return false
-		}
-		counts = append(counts, c)
-		obs := line[strings.Index(line, "count="):]
-		obs = obsCount.ReplaceAllString(obs, "count=*")
-		obs = obsQuant.ReplaceAllString(obs, "$1=*")
-		rest = append(rest, obs)
+		obs = append(obs, strings.Fields(obsQuant.ReplaceAllString(line[i:], "$1=*")))
 	}
-	if len(counts) != 2 || rest[0] != rest[1] || counts[0] == counts[1] {
+	if len(obs) != 2 || len(obs[0]) != len(obs[1]) {
 		return false
 	}
-	m := math.Max(math.Abs(counts[0]), math.Abs(counts[1]))
-	return math.Abs(counts[0]-counts[1]) <= 4*math.Ldexp(m, -52)
+	differs := false
+	for i := range obs[0] {
+		a, b := obs[0][i], obs[1][i]
+		if a == b {
+			continue
+		}
+		ka, kb := strings.LastIndexAny(a, "=:{"), strings.LastIndexAny(b, "=:{")
+		if ka < 0 || ka != kb || a[:ka] != b[:kb] {
+			return false
+		}
+		x, e1 := strconv.ParseFloat(strings.TrimRight(a[ka+1:], "}"), 64)
+		y, e2 := strconv.ParseFloat(strings.TrimRight(b[kb+1:], "}"), 64)
+		if e1 != nil || e2 != nil || math.Abs(x-y) > 4*math.Ldexp(math.Max(math.Abs(x), math.Abs(y)), -52) {
+			return false
+		}
+		differs = true
+	}
+	return differs
 }
 
 // C06 for sketches with exact statistics whose running total has rounded: the
